@@ -38,7 +38,7 @@ def run(res):
 
 def _run(res, work):
     pending = []   # (kind, broken, detail): machinery-level breaks that need a failing-input search
-    ok, tlog = common.regen_tables()
+    ok, tlog = common.regen_tables("C18")
     if not ok:
         pending.append(("translator", "Generated/PostTables.lean can no longer be extracted from codegen/postprocessing/*.rs", tlog[-3000:]))
     lean = common.lean_obligations("C18", res.tier)
